@@ -790,8 +790,8 @@ def lattices(quick):
         rep = [dn(2, 1, all2, "{1,5}"), dn(3, 1, all3, "{5,6}"), dn(4, 1, all4, "{7}"),
                dn(2, 2, "{1,2,5}", "{5}"), dn(3, 2, "{5,6}"), dn(4, 2, "{7}"),
                dn(2, 3, "{1,5}"), dn(2, 4, "{5}"), dn(3, 3, "{6}")]
-        small = [dn(2, 1), dn(2, 2), dn(3, 1), dn(4, 1)]
-        lean = [dn(3, 2, lean=True), dn(2, 3, lean=True), dn(2, 4, lean=True), dn(4, 2, lean=True)]
+        small = [dn(2, 1), dn(2, 2), dn(3, 1), dn(4, 1), dn(2, 3)]
+        lean = [dn(3, 2, lean=True), dn(2, 4, lean=True), dn(4, 2, lean=True), dn(3, 3, lean=True)]
         return {"rep": rep, "alg": small + lean, "act": small + lean, "obs": small + lean,
                 "ords": '{"id", "rot"}', "maxlaw": 9, "maxrep": 27, "maxprod": 27}
     rep = [dn(2, 1, all2, all2), dn(3, 1, all3, all3), dn(4, 1, all4 + " \\cup {2, 8}", all4),
